@@ -173,7 +173,8 @@ PLANS["C20"] = dict(mc=[], no_replay=True, level="other", bins=("fr-replay",), c
     explanation="Conformance through the CLI adapter: the node binary is rebuilt from /repo's working tree with default flags and driven "
                 "with inputs generated from the TLA+ system specification; TLC evaluates spec/FRCli.tla (command table, message each input "
                 "stands for) on the recorded invocations: the binary starts, every module command has --help, and the message printed by "
-                "`tx fundraising <cmd> <args> --generate-only` equals the typed input field by field.",
+                "`tx fundraising <cmd> <args> --generate-only` equals the typed input field by field, and the abci_query every query command sends "
+                "to a recording RPC endpoint carries exactly the fields the query table derives from the typed arguments and flags.",
     assumptions=["name resolution by reflection at process start is observed, not modelled", "default build of the working tree only"])
 # (with three registered listeners in one generator: the order in which listeners run is part of what must be reproducible)
 PLANS["C14"] = dict(mc=[], gen=GEN_MANY + scale(GEN_GENERAL, 0.3) + [dict(g, name=g["name"] + "D", num=20) for g in PLANS["C17"]["gen"][:1]],
